@@ -139,3 +139,8 @@ def run(F, res, tier):
                 ok_rng = True
     res.ob("N3", "find_def/range-is-token-range", "the range prepare_rename reports is the text_range of the token under the cursor",
            ok_rng, where=find_def.loc(), how="tuple.0 = tok.text_range()" if ok_rng else "not found")
+
+
+def thorough(F, res):
+    from lib import pcache as _pc
+    _pc.crosscheck(F, res)
